@@ -39,8 +39,8 @@ def _strip(fn):
     return fn
 
 
-WORLDS_QUICK = ['chain3', 'mount2', 'uses2']
-WORLDS_ALL = ['chain3', 'diamond', 'mount2', 'uses2', 'parts', 'optpat', 'ctxmove', 'types_line']
+WORLDS_QUICK = ['chain3', 'mount2', 'mount2p', 'uses2']
+WORLDS_ALL = ['chain3', 'diamond', 'mount2', 'mount2p', 'uses2', 'parts', 'optpat', 'ctxmove', 'types_line']
 
 
 def plan(tier):
